@@ -4,7 +4,7 @@
 From Coq Require Import ZifyBool Permutation Sorted.
 From V.Lib Require Import Base MachInt.
 From V.Gen Require Import C17Consts.
-From V.C17 Require Import Model Spec Corr Wf ProofsArith ProofsShuffle ProofsAnchor ProofsClassify ProofsCanon ProofsPerm ProofsWake ProofsWake2 ProofsShift.
+From V.C17 Require Import Model Spec Corr Wf ProofsArith ProofsShuffle ProofsAnchor ProofsClassify ProofsCanon ProofsPerm ProofsWake ProofsWake2 ProofsShift ProofsRebuild.
 Local Open Scope Z_scope.
 
 (** Every operation is bridged. For wake-ups the harness-side brute-force value [bf] that the
@@ -373,4 +373,17 @@ Proof.
       destruct (shift_tx oc iv (served - s0) (st, tr, s0, ex, an) ws) as [[t' r]| |]; try (intros Hm; discriminate Hm).
       destruct (shift_all oc iv (served - s0) rest r) as [[l' r']| |]; intros Hm; discriminate Hm.
     + reflexivity.
+  - (* Rebuild *)
+    rewrite !andb_true_iff in Hwf. destruct Hwf as [[[[[[[[HI Hcap] Hnu] Hf] Htip] Hpend] Hw] Hds] _].
+    unfold nz32, h32, in_u32, in_range in *.
+    assert (Hpend' : Forall (fun x => 0 <= x <= u32_max) pend).
+    { apply Forall_forall. intros x Hx. rewrite forallb_forall in Hpend. specialize (Hpend x Hx). lia. }
+    apply forallb_h32 in Hds.
+    destruct (rebuild_schedule oc iv cap nu63 funding tip pend ws ds) as [row'|e0|] eqn:M; destruct o as [row|e1|]; cbn in Hrun; try discriminate; try reflexivity.
+    assert (row = row').
+    { destruct row as [[a b] c], row' as [[a' b'] c']. unfold pair_eqb, zz_eqb, pair_eqb in Hrun. cbn [fst snd] in Hrun.
+      rewrite !andb_true_iff in Hrun. destruct Hrun as [[H1 H2] H3]. apply Z.eqb_eq in H1, H2. subst.
+      destruct c, c'; cbn in H3; try discriminate; [apply Z.eqb_eq in H3; subst|]; reflexivity. }
+    subst row'.
+    apply (rebuild_ok_model oc iv cap nu63 funding tip pend ws ds ltac:(lia) ltac:(lia) ltac:(lia) ltac:(lia) Hpend' Hds row M).
 Qed.
